@@ -35,6 +35,24 @@ def _getattr_defaults(t, attr):
     return out
 
 
+def _vfp_rules(tv, where):
+    obs = []
+    rows = [x for x in T.walk(tv) if x[0] == 'list' and len(x[1]) == 2 and x[1][0] == ('attr', T.V('self'), 'default_prio_vector')]
+    okr = bool(rows)
+    obs.append(Ob("E8.row-order", "E8.producer-consumer", where, "ok" if okr else "violation",
+                  "each request is stacked as [default_prio_vector, user row] (user row last)" if okr else
+                  "the per-request stack is not [default_prio_vector, user row]", key="E8:row-order"))
+    comp = [x for x in T.walk(tv) if x[0] == 'call' and x[1][0] == 'attr' and x[1][2] == 'ndint_compress']
+    okc = bool(comp) and all(dict(c[3]).get('method') == T.C('shadow') and dict(c[3]).get('axis') == T.C(0) for c in comp)
+    obs.append(Ob("E8.compress-call", "E8.producer-consumer", where, "ok" if okc else "violation",
+                  "compressed with method='shadow', axis=0" if okc else f"compress call is {[T.show(c)[-80:] for c in comp]}", key="E8:compress-call"))
+    user = [x for x in T.walk(tv) if x[0] == 'call' and x[1][0] == 'attr' and x[1][2] == 'get' and len(x[2]) == 2]
+    oku = bool(user) and all(u[2][1] == T.C(0) for u in user)
+    obs.append(Ob("E2.user-default", "E2.constant", where, "ok" if oku else "violation",
+                  "unnamed columns get user priority 0" if oku else f"user row default is {[T.show(u[2][1]) for u in user]}", key="E2:user-default"))
+    return obs
+
+
 def rules(ctx):
     P = ctx.program
     obs = []
@@ -71,22 +89,11 @@ def rules(ctx):
     # the tagged object is the complement of the default, the kept items equal the default
     comp = [x for x in T.walk(tany) if x[0] == 'filter' and x[1][0] == 'lam']
     # (covered by the contract; recorded as agreement evidence)
-    # producer/consumer: user row last, 'shadow' keeps last
-    tv = T.canonical(T.FuncLower(P, P.func(VFP)).term())
-    where = ctx.loc(VFP)
-    rows = [x for x in T.walk(tv) if x[0] == 'list' and len(x[1]) == 2 and x[1][0] == ('attr', T.V('self'), 'default_prio_vector')]
-    okr = bool(rows)
-    obs.append(Ob("E8.row-order", "E8.producer-consumer", where, "ok" if okr else "violation",
-                  "each request is stacked as [default_prio_vector, user row] (user row last)" if okr else
-                  "the per-request stack is not [default_prio_vector, user row]", key="E8:row-order"))
-    comp = [x for x in T.walk(tv) if x[0] == 'call' and x[1][0] == 'attr' and x[1][2] == 'ndint_compress']
-    okc = bool(comp) and all(dict(c[3]).get('method') == T.C('shadow') and dict(c[3]).get('axis') == T.C(0) for c in comp)
-    obs.append(Ob("E8.compress-call", "E8.producer-consumer", where, "ok" if okc else "violation",
-                  "compressed with method='shadow', axis=0" if okc else f"compress call is {[T.show(c)[-80:] for c in comp]}", key="E8:compress-call"))
-    user = [x for x in T.walk(tv) if x[0] == 'call' and x[1][0] == 'attr' and x[1][2] == 'get' and len(x[2]) == 2]
-    oku = bool(user) and all(u[2][1] == T.C(0) for u in user)
-    obs.append(Ob("E2.user-default", "E2.constant", where, "ok" if oku else "violation",
-                  "unnamed columns get user priority 0" if oku else f"user row default is {[T.show(u[2][1]) for u in user]}", key="E2:user-default"))
+    # producer/consumer: user row last, 'shadow' keeps last (implied by the contract of _vectors_from_prios: evaluated on the
+    # code and on the reference, settled by equivalence where the code's shape is not recognised)
+    code = _vfp_rules(T.canonical(T.FuncLower(P, P.func(VFP)).term()), ctx.loc(VFP))
+    ref = _vfp_rules(T.canonical(ctx.ref_term(VFP)), ctx.loc(VFP))
+    obs += ctx.settle_roles("C14", VFP, code, ref)
     # consumer: in the 'shadow' branch reduce2d(method='last')
     import ast
     fi = P.func(ND)
@@ -119,9 +126,9 @@ def rules(ctx):
                     meths.append(lit(dflt['method']) if 'method' in dflt else None)
             if in_body and all(m is not None for m in meths):
                 ok_last = all(m == 'last' for m in meths)
-    obs.append(Ob("E8.shadow-keeps-last", "E8.producer-consumer", ctx.loc(ND), "ok" if ok_last else ("violation" if ok_last is False else "inconclusive"),
+    obs += ctx.settle_roles("C14", ND, [Ob("E8.shadow-keeps-last", "E8.producer-consumer", ctx.loc(ND), "ok" if ok_last else ("violation" if ok_last is False else "inconclusive"),
                   "'shadow' keeps the last non-zero per column (later rows win) - agrees with the producer's row order" if ok_last else
-                  "'shadow' branch does not reduce with reduce2d(method='last')", key="E8:shadow-keeps-last"))
+                  "'shadow' branch does not reduce with reduce2d(method='last')", key="E8:shadow-keeps-last")], [])
     return obs
 
 
